@@ -173,6 +173,12 @@ def checkSetSpec (σ : Inst) (now : Int) (inp : SilIn) (okId : Option String) (c
   | none =>
     if cur = σ.impl then [] else [.propfail "rejected_op_changes_nothing" "rejected-op-changed-state" s!"id={inp.id}"]
   | some x =>
+    -- C12 `invalid_input_rejected`: validity is a function of the request alone (every matcher set on its own:
+    -- non-empty, well-formed matchers, at least one of them not matching the empty string; end not before start)
+    (if !validate env inp.sets (inp.start.getD now) inp.stop then
+       [Msg.propfail "invalid_input_rejected" "invalid-input-accepted"
+         s!"id={inp.id} got={x} sets={showSets inp.sets} bad-sets={joinList "." (((List.range inp.sets.length).zip inp.sets).filterMap fun (k, ms) => if setValid env ms then none else some (toString k))}"]
+     else []) ++
     (if inp.id ≠ "" ∧ prevO.isNone then [Msg.propfail "unknown_id_rejected" "unknown-id-accepted" s!"id={inp.id}"] else []) ++
     (match prevO with
      | some p =>
@@ -525,6 +531,19 @@ def stepSil (cfg : Cfg) (σ : Inst) (op obs : List String) : Option (Inst × Lis
   | ["mstop", now] => (stepCommon cfg σ ["gc", now] obs).map fun (σ', m) => (σ', m ++ [.tag "maintenance:shutdown"])
   | ["mload"] => (stepCommon cfg σ ["reload"] obs).map fun (σ', m) => (σ', m ++ [.tag "maintenance:start-from-file"])
   | "cmutes" :: rest => (stepCommon cfg σ ("mutes" :: rest) obs).map fun (σ', m) => (σ', m ++ [.tag "mutes:cancelled-context"])
+  -- the client edit through the API (GET the silence, POST it back with its id and the matchers exactly as the GET
+  -- returned them, other comment / times): an ordinary `post` whose matcher sets are the stored ones (taken from the
+  -- implementation's own previous dump; the line's sets stand in when the GET cannot answer: unknown id, several sets)
+  | ["postg", now, id, a, e, c, sets, big] =>
+    let (sets', rt) := match find σ.impl id with
+      | some p => if p.sil.sets.length = 1 then (showSets p.sil.sets, true) else (sets, false)
+      | none => (sets, false)
+    (stepCommon cfg σ ["post", now, id, a, e, c, sets', big] obs).map fun (σ', m) =>
+      (σ', m ++ (if rt then [.tag "post:matchers-from-get"] else []) ++
+        (match find σ.impl id with
+         | some p => if rt && (match p.sil.sets with | [ms] => decide (sortStrs (ms.map (·.name)) ≠ ms.map (·.name)) | _ => false)
+                     then [.tag "post:matchers-from-get-unsorted"] else []
+         | none => []))
   | _ => stepCommon cfg σ op obs
 
 end Driver.Sil
